@@ -78,6 +78,7 @@ macro_rules! record_wiring {
             }
             let r = ManuallyDrop::new(tp::parse_dtls_plaintext_record(b));
             let calls = unsafe { SEEN_CALLS };
+            vassert!(class(&r) != Class::Failure, "C10.record.never_returns_Failure");
             match ref_frame(b, 13) {
                 Frame::ShortHeader => {
                     vassert!(class(&r) == Class::Incomplete, "C10.record.short_header.incomplete");
@@ -365,6 +366,33 @@ fn check_dtls_ch(b: &[u8], bl: usize, body: Option<&DTLSMessageHandshakeBody>, e
                 None => {}
             }
         }
+    }
+}
+
+/// A 33-byte cookie (DTLS 1.2 allows up to 255): concrete shape, contents symbolic.
+#[kani::proof]
+#[kani::unwind(6)]
+fn c10_body_client_hello_cookie33() {
+    const BL: usize = 2 + 32 + 1 + 1 + 33 + 2 + 1;
+    let mut buf: [u8; 12 + BL + 1] = kani::any();
+    buf[0] = 1;
+    buf[1] = 0; buf[2] = 0; buf[3] = BL as u8;
+    buf[6] = 0; buf[7] = 0; buf[8] = 0;
+    buf[9] = 0; buf[10] = 0; buf[11] = BL as u8;
+    buf[12 + 34] = 0;       // session id length
+    buf[12 + 35] = 33;      // cookie length
+    buf[12 + 69] = 0;
+    buf[12 + 70] = 0;       // cipher list length
+    buf[12 + 71] = 0;       // compression list length
+    let b = &buf[..];
+    let r = ManuallyDrop::new(tp::parse_dtls_message_handshake(b));
+    vassert!(r.is_ok(), "C10.chcookie.wellformed.accepted");
+    if let Ok((_, DTLSMessage::Handshake(hm))) = &*r {
+        match &hm.body {
+            DTLSMessageHandshakeBody::ClientHello(ch) => vassert!(is_sub(b, ch.cookie, 12 + 36, 33), "C10.ch.cookie_exact"),
+            _ => vassert!(false, "C10.ch.variant"),
+        }
+        vcover!(true, "C10.chcookie.cover.ok");
     }
 }
 
